@@ -1,4 +1,6 @@
--- stub: component `fdio` not built yet
+import Driver.Fdio
+open Driver
+
 def main : IO UInt32 := do
-  IO.eprintln "driver-fdio: not implemented"
-  return 2
+  runComponent () Fdio.step
+  return 0
